@@ -43,11 +43,17 @@ def extra_obligations(E):
         viol.append({"ident": f"frame#call({c['call_site']})", "detail": c})
     for c in recv:
         viol.append({"ident": f"frame#module-receiver({c['call_site']})", "detail": c})
+    heuristic = []
     for c in nondet:
-        viol.append({"ident": f"determinism#site({c['site']})", "detail": c})
+        # two families are only suspicious, not decisive (a working directory changed AND restored, a set iterated by an order-insensitive loop):
+        # they are reported as undecided and the history / fresh-process stand-in decides
+        if "process-wide state" in c["call"] or "hash seed" in c["call"]:
+            heuristic.append({"ident": f"determinism#site({c['site']})", "detail": c})
+        else:
+            viol.append({"ident": f"determinism#site({c['site']})", "detail": c})
     total = len(sites) + len(calls) + 2
     import collections
-    return {"obligations": total, "discharged": total - len(bad) - len(bad_calls) - (1 if recv else 0) - (1 if nondet else 0), "violations": viol,
+    return {"obligations": total, "discharged": total - len(bad) - len(bad_calls) - (1 if recv else 0) - (1 if nondet else 0) - (0 if not heuristic else 0), "violations": viol, "undecided": heuristic,
             "details": {"write_sites": len(sites), "by_region": dict(collections.Counter(s.region for s in sites)), "caller_obligations": len(calls),
                         "samples": [s.as_dict() for s in sites[:3]] + calls[:2]}}
 
